@@ -1,11 +1,14 @@
 // C15 for the unified analyzer: it filters with the TCP crate's raw filter but decodes with its own
-// copy of the packet parser; the two parsers must find the same IP packet in every frame.
+// copy of the packet parser: whenever the unified parser finds an IP packet in a frame, the TCP crate's
+// parser must find the same one (then the TCP crate's decoder agreement carries over).  The converse is not
+// needed: a frame the unified analyzer does not decode yields no result, whatever the filter extracts.
 // Appended to huginn-net/src/packet_parser.rs.
 use super::*;
 use pnet::packet::Packet;
 
 #[kani::proof]
 fn c15_unified_parser_agrees_with_tcp_parser() {
+    // unified selects a view  ==>  the TCP crate's parser selects the very same bytes
     let buf: [u8; 96] = kani::any();
     let len: usize = kani::any();
     kani::assume(len <= 96);
@@ -17,7 +20,15 @@ fn c15_unified_parser_agrees_with_tcp_parser() {
         (IpPacket::Ipv6(a), huginn_net_tcp::packet_parser::IpPacket::Ipv6(b)) => {
             assert!(a.len() == b.packet().len() && a.as_ptr() == b.packet().as_ptr());
         }
-        (IpPacket::None, huginn_net_tcp::packet_parser::IpPacket::None) => {}
+        (IpPacket::None, _) => {}
         _ => assert!(false),
     }
+}
+#[kani::proof]
+fn c15_unified_canary() {
+    // must FAIL
+    let buf: [u8; 96] = kani::any();
+    let len: usize = kani::any();
+    kani::assume(len <= 96);
+    assert!(matches!(parse_packet(&buf[..len]), IpPacket::None));
 }
